@@ -7,8 +7,16 @@
    ill-typed or out-of-range value, never silently accepts an unknown key or drops a provided one, never
    modifies the spec; time strings evaluate to value times unit for every accepted unit suffix.
 
-   The model is of the code with fixes/C12-*.patch applied.  gen/Time.v is regenerated from
-   utility_functions.py on every run: on the unfixed source the time theorems below do not go through.
+   The model is of the code after the fix commits d658b1b (time strings) and 5a156f6 (NaN in ranges).
+   gen/Time.v is regenerated from utility_functions.py on every run: on the unfixed source the time
+   theorems below do not go through.
+
+   KNOWN FINDING pow2-returns-unconverted: `_validate_type_pow2` returns the item unconverted, so the FULL
+   statement of validate_sound (pow2 results are None or an INT that is a power of two) is false of the
+   faithful model: [pow2_type_refuted].  [validate_sound] is therefore stated with has_type for pow2 saying
+   what is actually returned (None or a value whose int() is a power of two: "8", 8.0, 2.5, True as well);
+   [pow2_int_input_partial] is the full-strength statement under the guard that excludes exactly the
+   recorded class (non-int inputs).
 
    Scope of the theorems (see NOTES.md): validator kinds str lstr int float num bool ms secs enum machine
    pow2 bool_int list dict(no param) and their _or_token forms; item types single list set dict
@@ -20,11 +28,24 @@ From C12.gen Require Import Time.
 Open Scope Z_scope.
 
 (* validate_item never returns an ill-typed or out-of-range value: for EVERY validator string, machine and
-   input value (has_type: declared type incl. numeric range with IEEE <=, enum membership, device exists) *)
+   input value (has_type: declared type incl. numeric range with IEEE <=, enum membership, device exists;
+   for pow2 only the weakened "int() of the result is a power of two", see above) *)
 Theorem validate_sound :
   forall m validator item r, validate_item m validator item = Ok r -> has_type m validator r = true.
 Proof. exact validate_item_sound. Qed.
 Print Assumptions validate_sound.
+
+(* pow2: the declared type (None or an int 2^k) is NOT what the code returns *)
+Theorem pow2_type_refuted :
+  exists m item r, validate_item m n_pow2 item = Ok r /\ is_pow2_int r = false.
+Proof. exact pow2_type_refuted_l. Qed.
+Print Assumptions pow2_type_refuted.
+
+(* ... except for int inputs, the guard that excludes exactly the recorded class *)
+Theorem pow2_int_input_partial :
+  forall m z r, validate_item m n_pow2 (YInt z) = Ok r -> is_pow2_int r = true.
+Proof. exact pow2_int_input_l. Qed.
+Print Assumptions pow2_int_input_partial.
 
 (* the same for a whole spec entry "type|validator|default": lists, sets, dicts and event-handler dicts are
    normalised to containers whose every element / key / value is well typed; item = None means "absent"
